@@ -7,6 +7,7 @@ import Ptn.C19.StarFork
 import Ptn.C19.Binary
 import Ptn.C19.Const
 import Ptn.C19.ConstAcceptStar
+import Ptn.C19.ConstAcceptFtps
 import Ptn.C19.ParentLeg
 import Ptn.C19.ValueRec
 import Ptn.C19.ValueChain
@@ -744,6 +745,24 @@ theorem ftps_structure_partial (d width height bd : Nat) (st : Fork)
 
 example : (starConst 3 2 2).isSome = true := by decide
 example : (ftps 3 2 3 2).isSome = true := by decide
+
+/-- Edge ranges of `constant_ftps` in the MODEL (builder B58): `width = 1` (no sub-chains) and `height = 1` (one main
+    node) are ACCEPTED - every call passes, as in the library - and leave legs of dimension `bd` unbound: with
+    `width = 1` leg 1 of the first / last and leg 2 of every middle main node, with `height = 1` leg 1 of `main 0`
+    (the shape `(bd, bd, d)` reserves a bond to a second main node that never comes).  Zero `width`, `height` or
+    `bd` is rejected by the positivity checks.  So the accepted range is exactly `width, height, bd ≥ 1`
+    (`⊆`: `ftps_structure_partial`; `⊇` is proved only up to one step: `fork_accept`, `ft_step_accept`). -/
+example : (ftps 2 1 2 3).map (·.nodes) = some
+    [⟨.main 0, none, [.main 1], [0, 1, 2], [3, 3, 2]⟩, ⟨.main 1, some (.main 0), [], [0, 1, 2], [3, 3, 2]⟩] ∧
+    (ftps 2 2 1 3).map (·.nodes) = some
+    [⟨.main 0, none, [.sub 0 0], [0, 1, 2], [3, 3, 2]⟩, ⟨.sub 0 0, some (.main 0), [], [0, 1], [3, 2]⟩] ∧
+    (ftps 2 1 1 3).map (·.nodes) = some [⟨.main 0, none, [], [0, 1, 2], [3, 3, 2]⟩] ∧
+    ftps 2 0 1 1 = none ∧ ftps 2 1 0 1 = none ∧ ftps 2 1 1 0 = none ∧
+    (ftps 1 4 4 1).isSome = true ∧ (ftps 0 3 1 2).isSome = true := by decide
+
+/-- the step condition `FtOK` of `ft_step_accept` holds for the second call of `constant_ftps(d=3, width=2, height=3, bd=2)` -/
+example : FtOK 3 2 3 2 [] (.main [2, 2, 2, 3]) ∧ FtOK 3 3 3 2 [.main [2, 2, 2, 3]] (.sub 1 [2, 2, 3]) := by
+  refine ⟨⟨by decide, by decide⟩, by decide, by decide, by decide⟩
 
 /-! ## Value level: what the constructed networks EVALUATE to (`Value*.lean` over `Ptn/Common/Einsum*.lean`) -/
 
